@@ -1196,3 +1196,199 @@ def state_text(fb, fn, nid, use):
         if init is not None:
             return ctext(fb, fn, init)
     return ctext(fb, fn, nid)
+
+
+# ------------------------------------------------------------------------------------------------ LAYOUT: memberwise special members
+
+def special_members(fb, rec):
+    """user-visible bodies that must handle every data member of rec: [(Fn, kind, self root, other root)]
+    kind: 'move-ctor' | 'copy-ctor' | 'move-assign' | 'copy-assign' | 'swap'."""
+    out = []
+    cls = rec.q
+
+    def is_cls(t):
+        t = t.replace('const ', '').strip().rstrip('&').strip()
+        return t == rec.full or t.split('<', 1)[0] == cls or t.split('<', 1)[0].replace('osmium::util::', 'osmium::') == cls
+    for f in fb.functions:
+        if not f.has_cfg or f.is_lambda:
+            continue
+        if f.cls == cls and (f.clsT is None or f.clsT == rec.full or not rec.targs):
+            if f.kind == 'ctor' and len(f.params) == 1 and is_cls(f.params[0]['tC']) and f.params[0]['tC'].rstrip().endswith('&'):
+                out.append((f, 'move-ctor' if f.params[0]['tC'].rstrip().endswith('&&') else 'copy-ctor', ('this',), ('param', 0)))
+            elif f.name == 'operator=' and len(f.params) == 1 and is_cls(f.params[0]['tC']) and f.params[0]['tC'].rstrip().endswith('&'):
+                out.append((f, 'move-assign' if f.params[0]['tC'].rstrip().endswith('&&') else 'copy-assign', ('this',), ('param', 0)))
+            elif f.name == 'swap' and len(f.params) == 1 and is_cls(f.params[0]['tC']):
+                out.append((f, 'swap', ('this',), ('param', 0)))
+        if f.name == 'swap' and len(f.params) == 2 and all(is_cls(p['tC']) for p in f.params) and (f.cls is None or f.cls == cls):
+            if not rec.targs or all(p['tC'].replace('const ', '').strip().rstrip('&').strip() in (rec.full,) or True for p in f.params):
+                out.append((f, 'swap', ('param', 0), ('param', 1)))
+    return out
+
+
+def _helper_with_other(fb, fn, n, self_root, other_root):
+    """call on the self object of a method of the same class that receives the other object -> (callee Fn, parameter index)"""
+    if n.get('k') != 'call' or 'u' not in n or not n.get('args') or self_root != ('this',) or n.get('rcls') != fn.cls:
+        return None
+    if n.get('recv') is not None and (fn.sn(n['recv']) or {}).get('k') != 'this':
+        return None
+    g = _callee_for(fb, fn, n)
+    if g is None or not g.has_cfg or g.id == fn.id:
+        return None
+    for i, a in enumerate(n['args']):
+        fp = _field_path(fn, a) if a is not None else None
+        if fp is not None and fp[0] == other_root and not fp[1] and i < len(g.params):
+            return g, i
+    return None
+
+
+def member_transfers(fb, fn, kind, self_root, other_root, field, depth=0):
+    """element ids of fn that move / copy / exchange `field` between the two objects (directly, or by handing the other object to a
+    helper of the class that does it on every normal path)."""
+    ids = []
+    if depth < 2:
+        for n in fn.all_nodes():
+            h = _helper_with_other(fb, fn, n, self_root, other_root)
+            if h is not None:
+                g, i = h
+                inner = member_transfers(fb, g, kind, ('this',), ('param', i), field, depth + 1)
+                if inner and must_pass(g, g.entry, inner) is None:
+                    ids.append(n['id'])
+
+    def mentions_other(nid):
+        for x in fn.subtree(nid):
+            m = fn.nodes[x]
+            if m.get('k') == 'member' and m.get('field') and m.get('name') == field:
+                fp = _field_path(fn, x)
+                if fp is not None and fp[0] == other_root and fp[1][:1] == (field,):
+                    return True
+        return False
+
+    def is_self(nid):
+        fp = _field_path(fn, nid)
+        return fp is not None and fp[0] == self_root and fp[1][:1] == (field,)
+    for n in fn.all_nodes():
+        k = n.get('k')
+        if k == 'init' and n.get('name') == field and self_root == ('this',) and isinstance(n.get('init'), int) and mentions_other(n['init']):
+            ids.append(n['id'])
+        elif k == 'assign' and n.get('op') == '=' and is_self(n['lhs']) and mentions_other(n['rhs']):
+            ids.append(n['id'])
+        elif k == 'call' and n.get('op') == '=' and (n.get('recv') is not None or n.get('args')):
+            lhs = n['recv'] if n.get('recv') is not None else n['args'][0]
+            rhs = n['args'][-1] if n.get('args') else None
+            if rhs is not None and is_self(lhs) and mentions_other(rhs):
+                ids.append(n['id'])
+        elif k == 'call' and n.get('q', '').rsplit('::', 1)[-1] == 'swap':
+            a = list(n.get('args', []))
+            if n.get('recv') is not None and len(a) == 1:
+                a = [n['recv'], a[0]]
+            if len(a) == 2 and ((is_self(a[0]) and mentions_other(a[1])) or (is_self(a[1]) and mentions_other(a[0]))):
+                ids.append(n['id'])
+    return ids
+
+
+def self_assignment_edges(fn, other_root):
+    """edge filter that prunes the `this == &other` edge of a self-assignment test."""
+    def edge_ok(b, i, s):
+        blk = fn.blocks[b]
+        if 'cond' not in blk or len(blk['succs']) != 2:
+            return True
+        for (c, sense) in edge_facts(fn, blk, i):
+            p = cmp_parts(fn, c)
+            if p is None or p[0] not in ('==', '!='):
+                continue
+            kinds = {(scn(fn, x) or {}).get('k') for x in (p[1], p[2])}
+            if 'this' in kinds and any((scn(fn, x) or {}).get('k') == 'unop' and (scn(fn, x) or {}).get('op') == '&' for x in (p[1], p[2])):
+                if (p[0] == '==') == sense:
+                    return False
+        return True
+    return edge_ok
+
+
+def invalidated_fields(fb, fn, other_root, depth=0):
+    """members of the other object written by fn after the transfer: direct stores, or a call on it of a method that stores to its own members
+    (or a helper of the class that receives it and does so) -> {field name: [node ids]}"""
+    out = {}
+    for n in fn.all_nodes():
+        k = n.get('k')
+        if depth < 2:
+            h = _helper_with_other(fb, fn, n, ('this',), other_root)
+            if h is not None:
+                for f_, ids_ in invalidated_fields(fb, h[0], ('param', h[1]), depth + 1).items():
+                    if must_pass(h[0], h[0].entry, ids_) is None:
+                        out.setdefault(f_, []).append(n['id'])
+        if k == 'assign':
+            fp = _field_path(fn, n['lhs'])
+            if fp is not None and fp[0] == other_root and fp[1]:
+                out.setdefault(fp[1][0], []).append(n['id'])
+        elif k == 'call' and n.get('q') == 'std::exchange' and len(n.get('args', [])) == 2:
+            fp = _field_path(fn, n['args'][0])     # std::exchange(other.f, v) yields other.f and stores v into it
+            if fp is not None and fp[0] == other_root and fp[1]:
+                out.setdefault(fp[1][0], []).append(n['id'])
+        elif k == 'call' and n.get('q', '').rsplit('::', 1)[-1] == 'swap' and len(n.get('args', [])) == 2:
+            for a in n['args']:     # exchanging a member writes the other object's member (with what this object held before)
+                fp = _field_path(fn, a)
+                if fp is not None and fp[0] == other_root and fp[1]:
+                    out.setdefault(fp[1][0], []).append(n['id'])
+        elif k == 'call' and n.get('recv') is not None and 'u' in n:
+            fp = _field_path(fn, n['recv'])
+            if fp is None or fp[0] != other_root or fp[1]:
+                continue
+            g = _callee_for(fb, fn, n)
+            if g is None or not g.has_cfg:
+                continue
+            for m in g.all_nodes():
+                if m.get('k') == 'assign' and g.is_this_member(m['lhs']):
+                    out.setdefault(g.sn(m['lhs'])['name'], []).append(n['id'])
+    return out
+
+
+def memberwise_rule(fb, R, rule, recs, exceptions=None, by_value_assign=True):
+    """Shared LAYOUT rule (C12 / C15; the verdicts are reported under the caller's rule name): every user-written copy / move
+    constructor, copy / move assignment and swap of the given records handles every non-static data member of the record (list
+    taken from the record facts) on every normal path; `exceptions` = {(class, kind, field): reason}.  An assignment operator
+    taking its argument by value must delegate to the class's swap with (*this, argument).  Returns the (Fn, kind, other root) list."""
+    exceptions = exceptions or {}
+    done = []
+    seen = set()
+    for rec in recs:
+        sms = special_members(fb, rec)
+        swaps = {f.usr for (f, kind, _s, _o) in sms if kind == 'swap'}
+        for (fn, kind, sroot, oroot) in sms:
+            k = (fn.pat, kind)
+            if k in seen:
+                continue
+            seen.add(k)
+            done.append((fn, kind, oroot, rec))
+            edge_ok = self_assignment_edges(fn, oroot)
+            for fd in rec.fields:
+                name = fd['name']
+                key = '%s(%s)#%s' % (fn.q, kind, name)
+                why = exceptions.get((rec.q, kind, name))
+                if why is not None:
+                    R.ok(rule, key, fn.site, 'not transferred member-wise: ' + why)
+                    continue
+                ids = member_transfers(fb, fn, kind, sroot, oroot, name)
+                w = must_pass(fn, fn.entry, ids, edge_ok) if ids else [('exit', fn.exit)]
+                R.check(w is None, rule, key, fn.site,
+                        '%s %s of %s does not %s member %s%s (the object would keep its old %s)'
+                        % (kind, fn.q, rec.q, 'exchange' if kind == 'swap' else 'take over', name, '' if not ids else ' on every path', name))
+        if by_value_assign:
+            for fn in fb.functions:
+                if fn.cls == rec.q and fn.has_cfg and fn.name == 'operator=' and len(fn.params) == 1 and (fn.pat, 'by-value') not in seen \
+                        and not fn.params[0]['tC'].rstrip().endswith('&') and fn.params[0]['tC'].replace('const ', '').split('<', 1)[0] == rec.q:
+                    seen.add((fn.pat, 'by-value'))
+                    calls = [n for n in fn.all_nodes() if n.get('k') == 'call' and n.get('u') in swaps and len(n.get('args', [])) == 2]
+                    ok = False
+                    for c in calls:
+                        roots = []
+                        for a in c['args']:
+                            x = scn(fn, a)
+                            if x is not None and x.get('k') == 'unop' and x.get('op') == '*' and (scn(fn, x['sub']) or {}).get('k') == 'this':
+                                roots.append('this')
+                            elif x is not None and x.get('k') == 'var' and x.get('d') == fn.params[0]['d']:
+                                roots.append('param')
+                        if sorted(roots) == ['param', 'this'] and must_pass(fn, fn.entry, [c['id']]) is None:
+                            ok = True
+                    R.check(ok, rule, '%s(by-value)#swaps-with-argument' % fn.q, fn.site,
+                            'copy-and-swap assignment %s must call the class swap with (*this, argument) on every path' % fn.q)
+    return done
